@@ -19,6 +19,7 @@ import (
 	"go.minekube.com/gate/pkg/edition/java/proxy/internal/resourcepack"
 	"go.minekube.com/gate/pkg/gate/proto"
 	"go.minekube.com/gate/pkg/internal/future"
+	"go.minekube.com/gate/pkg/internal/verifhook"
 	"go.minekube.com/gate/pkg/util/netutil"
 	"go.minekube.com/gate/pkg/util/sets"
 
@@ -654,6 +655,7 @@ func (p *connectedPlayer) SetModInfo(info *modinfo.ModInfo) {
 func (p *connectedPlayer) setConnectedServer(conn *serverConnection) {
 	p.mu.Lock()
 	p.connectedServer_ = conn
+	verifhook.Event("sw.setConnected", "player", p.profile.Name, "server", conn.verifName(), "inflight", p.connInFlight.verifName())
 	p.tryIndex = 0 // reset since we got connected to a server
 	if conn == p.connInFlight {
 		p.connInFlight = nil
